@@ -591,6 +591,22 @@ oscore_derive_ctx(coap_context_t *c_context, coap_oscore_conf_t *oscore_conf) {
   return osc_ctx;
 
 error:
+  /*
+   * Release what was built here.  The identifiers and secrets are still owned
+   * by oscore_conf, which the caller releases.
+   */
+  if (osc_ctx) {
+    while (osc_ctx->recipient_chain) {
+      oscore_recipient_ctx_t *next = osc_ctx->recipient_chain->next_recipient;
+
+      coap_delete_bin_const(osc_ctx->recipient_chain->recipient_key);
+      coap_free_type(COAP_OSCORE_REC, osc_ctx->recipient_chain);
+      osc_ctx->recipient_chain = next;
+    }
+    coap_delete_bin_const(osc_ctx->common_iv);
+  }
+  if (sender_ctx)
+    coap_delete_bin_const(sender_ctx->sender_key);
   coap_free_type(COAP_OSCORE_COM, osc_ctx);
   coap_free_type(COAP_OSCORE_SEN, sender_ctx);
   return NULL;
